@@ -247,6 +247,18 @@ NET_CONTENT(__CPROVER_ensures(!(vg_k >= (size_t) __CPROVER_old(self->len) && vg_
 ;
 #endif
 
+/* str.c:348  fresh object with a fresh copy of the text (same length, same bytes by ghost index); argument untouched.
+ * (Used by url.c only after findings/proposed/C14_url_dup_stale_components.diff.) */
+spif_str_t spif_str_dup(spif_str_t self)
+__CPROVER_requires(self != NULL && self->s != NULL && self->len >= 0 && self->len < self->size && self->size <= VCAP)
+__CPROVER_assigns()
+__CPROVER_ensures(__CPROVER_is_fresh(__CPROVER_return_value, sizeof(spif_const_str_t)))
+__CPROVER_ensures(__CPROVER_return_value->len == self->len && __CPROVER_return_value->size > self->len)
+__CPROVER_ensures(__CPROVER_is_fresh(__CPROVER_return_value->s, (size_t) __CPROVER_return_value->size))
+__CPROVER_ensures(__CPROVER_return_value->s[self->len] == 0)
+NET_CONTENT(__CPROVER_ensures(!(vg_k < (size_t) self->len) || __CPROVER_return_value->s[vg_k] == self->s[vg_k]))
+;
+
 /* str.c:340/443: three-way result of strcmp on the two texts, NULL before every object.
  * ASSUMES (with C01/C05 of agent str): strcmp is a total order on NUL-terminated texts. */
 spif_cmp_t spif_str_comp(spif_str_t self, spif_str_t other)
@@ -393,7 +405,7 @@ __CPROVER_ensures(URL_BUILT_COMPS(__CPROVER_return_value))
  * components that are each absent or NEW owned strings; the original is not assigned.  (The components
  * are produced by re-parsing the text: see finding C05-url-dup-stale in known_findings/C05.net.json.) */
 spif_url_t spif_url_dup(spif_url_t self)
-__CPROVER_requires(__CPROVER_is_fresh(self, sizeof(spif_const_url_t)))
+__CPROVER_requires(__CPROVER_is_fresh(self, sizeof(spif_const_url_t)) && URL_COMPS_OK(self))
 __CPROVER_requires(URL_ARG_TEXT(NSTR(self)->s) && NSTR(self)->len >= 0 && (size_t) NSTR(self)->len == vg_n1 && NSTR(self)->size > NSTR(self)->len)
 __CPROVER_assigns(vg_txt, vg_txt_len, vg_buf, vg_buf_len, VG_LOOKUP_ASSIGNS)
 __CPROVER_ensures(__CPROVER_is_fresh(__CPROVER_return_value, sizeof(spif_const_url_t)) && URL_BUILT(__CPROVER_return_value, NSTR(self)->s))
